@@ -372,6 +372,12 @@ func (o RewriteOpts) Render(p Program) string {
 		for j := range b.Keys {
 			entries = append(entries, [2]any{b.Keys[j], b.Vals[j]})
 		}
+		if v.Extra != nil {
+			x := o.body(v.Extra)
+			for j := range x.Keys {
+				entries = append(entries, [2]any{x.Keys[j], x.Vals[j]})
+			}
+		}
 		for _, j := range o.order(len(entries)) {
 			vm.put(entries[j][0].(string), entries[j][1].(*YNode))
 		}
@@ -602,5 +608,13 @@ func BaseProfilesC15() []Program {
 		{Name: "va", Level: "violation", Class: 0, F: Or{[]Formula{pair(0, 1), pair(2, 3), pair(4, 5), pair(6, 7), pair(1, 4)}}},
 		{Name: "vb", Level: "warning", Class: 0, F: Or{[]Formula{pair(7, 0), pair(5, 2), pair(3, 6), pair(1, 1), mc(2), mc(5)}}},
 	}}
-	return []Program{b1, b2, b3, b4, b5, b6}
+	// B7: mappings that hold two expression keys: the translator takes one of them by a fixed order
+	// of preference (propertyConstraints before and before or before not), wherever they stand
+	b7 := Program{Name: "B7", Validations: []Validation{
+		{Name: "va", Level: "violation", Class: 0, F: PC{[]Formula{Atom{Path: P(0), Kind: "minCount", N: 1}}},
+			Extra: Not{PC{[]Formula{Atom{Path: P(0), Kind: "pattern", Pattern: "^a"}}}}},
+		{Name: "vb", Level: "warning", Class: 0, F: Or{[]Formula{a(Atom{Path: P(1), Kind: "minCount", N: 1}), a(Atom{Path: P(0), Kind: "minCount", N: 2})}},
+			Extra: Not{a(Atom{Path: P(1), Kind: "maxCount", N: 0})}},
+	}}
+	return []Program{b1, b2, b3, b4, b5, b6, b7}
 }
